@@ -22,7 +22,7 @@ ASSUMPTIONS = ['the harness influence-set functions cover every node whose rate 
 BUDGET = {'quick': 160, 'thorough': 1500}
 CHUNK = {'quick': 10, 'thorough': 40}
 CASE_TIMEOUT = 300
-REQUIRED = ['steps_law_checked', 'clock_draws_checked', 'selections_checked', 'thresholds_checked', 'chooser_calls_checked', 'terminations_checked', 'one_shot_influence_iterables',
+REQUIRED = ['steps_law_checked', 'clock_draws_checked', 'selections_checked', 'thresholds_checked', 'chooser_calls_checked', 'terminations_checked', 'one_shot_influence_iterables', 'falsy_status_label_runs',
             'counts_follow_statuses', 'e3_states_expanded', 'rate_zero_after_event_seen']
 
 
@@ -100,7 +100,8 @@ def gen_cases(tier, seed):
         out.append({'kind': 'e2', 'graph': desc, 'model': m, 'params': [r.choice([0.3, 0.7, 1.0, 2.3]), r.choice([0.3, 1.0, 1.9])],
                     'IC': [r.choice([0, 0, 1]) for _ in range(desc['n'])], 'tmin': r.choice([0, -2, 1.5]),
                     'tmax': r.choice(['inf', 1.0, 3.0]) if m in ('sir', 'threshold', 'watts', 'kofn', 'global') else r.choice([0.5, 1.5]),
-                    'full': r.random() < 0.5, 'seed': cs, 'infl_form': r.choice(['list', 'tuple', 'set', 'iterator', 'generator', 'dictkeys'])})
+                    'full': r.random() < 0.5, 'seed': cs, 'infl_form': r.choice(['list', 'tuple', 'set', 'iterator', 'generator', 'dictkeys']),
+                    'label_map': r.choice(['str', 'int0', 'rev_int', 'bool', 'emptystr'])})
     nmax = 4 if q else 5
     k = 0
     for desc in gen.atlas(nmax, 2):
@@ -112,7 +113,8 @@ def gen_cases(tier, seed):
             d['labels'] = 'int'
             out.append({'kind': 'e3', 'graph': d, 'model': m, 'params': [r.choice([0.7, 1.0, 2.3]), r.choice([0.3, 1.9])],
                         'IC': [1 if i == 0 else r.choice([0, 0, 1]) for i in range(d['n'])], 'tmin': 0, 'tmax': 1000.0, 'full': True, 'seed': cs,
-                        'infl_form': ['list', 'iterator', 'set', 'generator', 'tuple', 'dictkeys'][k % 6]})
+                        'infl_form': ['list', 'iterator', 'set', 'generator', 'tuple', 'dictkeys'][k % 6],
+                        'label_map': ['str', 'int0', 'rev_int', 'bool', 'emptystr'][k % 5]})
     return out
 
 
@@ -120,7 +122,37 @@ def run_case(case):
     import EoN
     res = new_result()
     G, lab = gen.build_graph(case['graph'])
-    rate, chooser, infl0, sts = model(case['model'], case['params'])
+    rate_s, chooser_s, infl_s, sts_s = model(case['model'], case['params'])
+    # status labels are the user's business: strings, ints (incl. the falsy 0), bools, the empty string ...
+    lm = case.get('label_map', 'str')
+    if lm == 'int0':
+        fwd = {x: i for i, x in enumerate(sts_s)}
+    elif lm == 'rev_int':
+        fwd = {x: len(sts_s) - 1 - i for i, x in enumerate(sts_s)}
+    elif lm == 'bool' and len(sts_s) == 2:
+        fwd = {sts_s[0]: False, sts_s[1]: True}
+    elif lm == 'emptystr':
+        fwd = {x: ('' if i == 0 else 'x' * i) for i, x in enumerate(sts_s)}
+    else:
+        fwd = {x: x for x in sts_s}
+    inv = {v: k for k, v in fwd.items()}
+    sts = [fwd[x] for x in sts_s]
+
+    class _View(object):            # the models are written in terms of the string labels; they see the statuses through this view
+        def __init__(self, st):
+            self.st = st
+
+        def __getitem__(self, n):
+            return inv[self.st[n]]
+
+    def rate(Gx, n, status, p=None):
+        return rate_s(Gx, n, _View(status), p)
+
+    def chooser(Gx, n, status, p=None):
+        return fwd[chooser_s(Gx, n, _View(status), p)]
+
+    def infl0(Gx, n, status, p=None):
+        return infl_s(Gx, n, _View(status), p)
     # the influence set may be any iterable the user likes: list, tuple, set, one-shot iterator / generator (e.g. G.neighbors(node)), dict view
     form = case.get('infl_form', 'list')
 
@@ -144,6 +176,8 @@ def run_case(case):
     tag = 'Gillespie_complex_contagion|%s' % case['model']
     if form in ('iterator', 'generator'):
         bump(res, 'one_shot_influence_iterables')
+    if any(not x for x in sts):
+        bump(res, 'falsy_status_label_runs')
     chooser_calls = []
 
     def rec_chooser(Gx, node, status, parameters):
